@@ -73,6 +73,15 @@ def unit_family(units, depth):
                 cname = f"{nm}*{f}"
                 (user if bname == "uroot" else fam)[cname] = (child, size * f)
                 frontier.append((cname, child, size * f, d + 1))
+    # user units whose conversion functions themselves call units.convert (a unit defined "through" another unit), with a
+    # further unit on top of them: hand = 4 inches (defined through metre<->inch), span2 = 2 hands, span4 = 2 span2
+    hand = U(base_unit=units.meter, base_to_unit=lambda m: units.convert(units.meter, units.inch, m) / 4, unit_to_base=lambda h: units.convert(units.inch, units.meter, h * 4))
+    span2 = U(base_unit=hand, base_to_unit=lambda h: h / 2, unit_to_base=lambda s2: s2 * 2)
+    span4 = U(base_unit=span2, base_to_unit=lambda s2: units.convert(hand, span2, units.convert(span2, hand, s2)) / 2, unit_to_base=lambda s4: s4 * 2)
+    inch_size = 0.3048 / 12
+    fam["hand(reentrant)"] = (hand, 4 * inch_size)
+    fam["span2*on-hand"] = (span2, 8 * inch_size)
+    fam["span4*on*span2"] = (span4, 16 * inch_size)
     return fam, user
 
 
@@ -138,6 +147,8 @@ def check_units(res, tier):
     triples(builtin, "builtin", True)
     triples(fam, "builtin+user-chains", tier == "thorough" and len(fam) <= 40)
     triples(user, "user-tree", tier == "thorough" and len(user) <= 40)
+    reent = {k: v for k, v in fam.items() if k in ("meter", "inch", "centimeter", "foot") or "reentrant" in k or k.startswith("span")}
+    triples(reent, "reentrant-user-units", True)
     res.bounds.update(builtin_triples=64, units_in_family=len(fam), units_in_user_tree=len(user), values=VALUES)
     res.sample(dict(kind="units", triple=["inch", "centimeter", "foot"], value=12345.678, identities=["same unit", "there and back", "a->b->c == a->c", "linear"]))
 
@@ -208,7 +219,7 @@ def check_pressure(res, tier):
     # calibrate / voltage histories
     volts = [0.5, 2.0, 4.5, 0.0, -1.0]
     press = [0.0, 50.0, 120.0]
-    ops = [("v", x) for x in volts] + [("cal", p) for p in press]
+    ops = [("v", x) for x in volts] + [("cal", p) for p in press] + [("read", None)]
     depth = 4 if tier == "quick" else 5
     for vcc in (5, 3.3):
         for ln in range(1, depth + 1):
@@ -221,15 +232,21 @@ def check_pressure(res, tier):
                 ncal = 0
                 res.executions += 1
                 res.transitions += ln
-                for kind, x in seq:
+                for kind, x in list(seq) + [("back", None), ("read", None)]:
                     rp = dict(engine="inputs", kind="pressure-history", vcc=vcc, history=[list(o) for o in seq])
                     try:
                         if kind == "v":
                             s.sensor.v = x
-                        else:
+                            continue  # reads are operations of their own: a defect may depend on *not* reading here
+                        if kind == "back":
+                            if cal_v is not None:
+                                s.sensor.v = cal_v  # finish every history with a reading at the calibration voltage
+                            continue
+                        if kind == "cal":
                             s.calibrate(x)
                             cal_v, cal_p = s.sensor.v, x
                             ncal += 1
+                            continue
                         got = s.pressure
                     except Exception as e:  # noqa
                         res.violation("pressure-raises", f"history {list(seq)}: {type(e).__name__}: {e}", rp)
